@@ -140,7 +140,7 @@ def arith_both(op, T, av, bv):
     g = ("old(%s[0]) != %s(0) ==> " % (bv, T)) if (op == "Div" and T in INTS) else ""
     return "(%s%s[0] == %s(old(%s[0]), old(%s[0])))" % (g, av, binop(op, T), av, bv)
 for op, types in ARITH_T.items():
-    bin_iter(op + "Iter", op, types, arith_schema, "C06 C15 C17", arith_both)
+    bin_iter(op + "Iter", op, types, arith_schema, "C06 C17", arith_both)
 
 # ---------------- unary ----------------
 for op, types in UN_T.items():
@@ -152,7 +152,7 @@ for op, types in UN_T.items():
     unsupported(types)
     assigns(["a"], types)
     w("")
-    header(op + "Iter", "C12 C15 C17")
+    header(op + "Iter", "C12 C17")
     lets(["a"], types)
     w('//@   requires [pos] gh("it_pos", ait) >= 0')
     for T in types:
@@ -212,7 +212,7 @@ for op, types in CMP_T.items():
 # ---------------- comparisons, iterator variants ----------------
 for op, types in CMP_T.items():
     f = CMPFN[op]
-    header(op + "Iter", "C11 C15 C17")
+    header(op + "Iter", "C11 C17")
     lets(["a", "b"], types)
     w('//@   let rv = tview("bool", retVal)')
     w("//@   requires [alias_r] retVal.Raw.arr != a.Raw.arr && retVal.Raw.arr != b.Raw.arr")
@@ -232,7 +232,7 @@ for op, types in CMP_T.items():
     w("//@   assigns whole(rv), gh(\"it_pos\", ait), gh(\"it_pos\", bit), gh(\"it_pos\", rit)")
     w("")
     stypes = [T for T in types if T != "unsafe.Pointer"]
-    header(op + "SameIter", "C11 C15 C17")
+    header(op + "SameIter", "C11 C17")
     lets(["a", "b"], stypes)
     alias_req("a", "b")
     w('//@   requires [pos] gh("it_pos", ait) >= 0 && gh("it_pos", bit) >= 0 && ait.val != bit.val')
@@ -254,7 +254,7 @@ for op, types in CMP_T.items():
 # ---------------- min/max between, iterator ----------------
 for op in ("Min", "Max"):
     types = ORD
-    header(op + "BetweenIter", "C06 C15 C17")
+    header(op + "BetweenIter", "C06 C17")
     lets(["a", "b"], types)
     alias_req("a", "b")
     w('//@   requires [pos] gh("it_pos", ait) >= 0 && gh("it_pos", bit) >= 0 && ait.val != bit.val')
